@@ -34,6 +34,7 @@ import (
 	"strings"
 	"sync"
 	"testing"
+	"time"
 )
 
 // ---- capture writers: every Write call is kept separately
@@ -159,6 +160,21 @@ func vC18LineOK(rest []byte, prefix, msg string) string {
 }
 
 type vC18Fail struct{ oracle, detail string }
+
+// watchdog: wait for a group of goroutines, give up (and abandon them) after d
+var vC18Hung int
+
+func vC18Wait(wg *sync.WaitGroup, d time.Duration) bool {
+	done := make(chan bool)
+	go func() { wg.Wait(); close(done) }()
+	select {
+	case <-done:
+		return true
+	case <-time.After(d):
+		vC18Hung++
+		return false
+	}
+}
 
 // ---- kind 1: sequential program
 func vC18Seq(c vSx) (vSx, vSx, []vC18Fail, bool) {
@@ -387,7 +403,13 @@ func vC18Serial(c vSx) (vSx, vSx, []vC18Fail, bool) {
 		}
 		r := req{reply: make(chan int)}
 		chans[tid] <- r
-		id := <-r.reply
+		var id int
+		select {
+		case id = <-r.reply:
+		case <-time.After(3 * time.Second):
+			vC18Hung++
+			return c, vL(vZ(-2)), append(fails, vC18Fail{"goroutine-hung", fmt.Sprintf("WithContext on goroutine %d did not return (abandoned)", tid)}), false
+		}
 		if !vC18NewID(id) {
 			fails = append(fails, vC18Fail{"unique-id", fmt.Sprintf("id %d was handed out before", id)})
 		}
@@ -400,7 +422,7 @@ func vC18Serial(c vSx) (vSx, vSx, []vC18Fail, bool) {
 	for _, ch := range chans {
 		close(ch)
 	}
-	wg.Wait()
+	vC18Wait(&wg, 3*time.Second)
 	return c, vLs(out), fails, switches >= 1
 }
 
@@ -437,7 +459,9 @@ func vC18Stress(c vSx) (vSx, vSx, []vC18Fail, bool) {
 		}(g)
 	}
 	close(start)
-	wg.Wait()
+	if !vC18Wait(&wg, time.Duration(10+n*m/20000)*time.Second) {
+		return c, vL(vZ(-2)), []vC18Fail{{"goroutine-hung", "allocating/logging goroutines did not finish (abandoned)"}}, false
+	}
 	ws := w.take()
 	if len(ws) != n*m {
 		bad("one-write", fmt.Sprintf("%d calls made %d Write calls", n*m, len(ws)))
@@ -579,7 +603,9 @@ func vC18LogStress(c vSx) (vSx, vSx, []vC18Fail, bool) {
 		}(g)
 	}
 	close(start)
-	wg.Wait()
+	if !vC18Wait(&wg, time.Duration(10+n*m/20000)*time.Second) {
+		return c, vL(vZ(-2)), []vC18Fail{{"goroutine-hung", "logging goroutines did not finish (abandoned)"}}, false
+	}
 	ws := w.take()
 	if len(ws) != n*m {
 		bad("one-write", fmt.Sprintf("%d calls made %d Write calls", n*m, len(ws)))
@@ -683,6 +709,9 @@ func TestVerifC18(t *testing.T) {
 	defer k.close()
 	var _ io.Writer = &vC18Cap{}
 	runOne := func(c vSx) {
+		if vC18Hung >= 4 {
+			return // a handful of hangs has been recorded: stop exploring
+		}
 		if !c.isList() || len(c.l) == 0 || !c.l[0].isInt() {
 			k.record(c, vL(vZ(-1)), false)
 			return
